@@ -64,6 +64,9 @@ void mutate(Choices &c, std::string &s, std::string &log) {
   }
   case 2: { // deep nesting
     size_t depth = (size_t)(size_t[]){50, 1000, 20000}[c.range(0, 2)];
+    // listed finding: the null-transition closure needs time cubic in the nesting depth.  Stay below what it
+    // can finish except on a small fraction of cases, so that the run goes on behind the finding
+    if (depth > 50 && isKnown("timeout:fsg_model_null_trans_closure") && !c.coin(6)) depth = (size_t)c.range(60, 140);
     static const char *O[] = {"(", "[", "{", "<"};
     static const char *C[] = {")", "]", "}", ">"};
     int k = (int)c.range(0, 3);
@@ -478,7 +481,7 @@ void initInputs() {
 
 namespace pbt {
 const PropDef kProps[] = {
-    {"C10", propC10, true, 20000, initInputs},
+    {"C10", propC10, true, 20000, initInputs, nullptr, true},
     {nullptr, nullptr, false, 0, nullptr},
 };
 }
